@@ -236,6 +236,10 @@ theorem sortByScore_map {α β : Type} (f : α → β) (key : β → Int) (l : L
   | cons x xs ih =>
     rw [sortByScore_cons, List.map_cons, sortByScore_cons, insertByScore_map, ih]
 
+/-- the sort is stable: the two entries with score 50 keep their order, the entry with score 10 moves to the front -/
+example : sortByScore (·.2) [("a", (50 : Int)), ("b", 10), ("c", 50), ("d", 70), ("e", 10)] =
+    [("b", 10), ("e", 10), ("a", 50), ("c", 50), ("d", 70)] := by decide
+
 theorem finishBatch_length (got : List (Probe × Int)) : (finishBatch got).length = got.length := by
   unfold finishBatch
   rw [List.length_map, sortByScore_length]
